@@ -5,6 +5,7 @@ import NixModel.Generated.LinkOrder
 import NixModel.Generated.CopyOrder
 import NixModel.Generated.PropCreateOrder
 import NixModel.Generated.RoleOrder
+import NixModel.Generated.AttrOrder
 open Lean Nix.Store
 
 /-!
@@ -40,6 +41,9 @@ Additional ops:
         | "Dimension.link_data_frame"; kind = "none" | "array" | "frame" | "section" | "other"; place = "member" |
         "otherBlock" | "otherFile" | "deleted"; linked: the owner has the link; targetFrame = null | bool; answer
         {"err": null | class, "link": null | "old" | "new", "target_frame": null | b, "stamped": b}
+  ["attr_run", setter, [isNone, typeOk, normOk, storesNone, isText, textStorable, hasH5Type], present]       the
+        attribute setters of Pure/AttrWrite.lean run on Generated/AttrOrder.lean: setter = a name of `AttrOrder.all`;
+        present: the attribute has a value; answer {"err": null | class, "attr": null | "old" | "new", "stamped": b}
 -/
 namespace Driver.C12
 open Driver Driver.Store
@@ -271,8 +275,21 @@ def roleRun (name kind place : String) (idFound tagged linked tframe : Json) : J
       ("stamped", Json.bool (r.1.stamp != 1))])
   | _, _, _ => bad "role_run"
 
+open Nix.Guarded Nix.AttrWrite in
+def attrRun (name : String) (flags present : Json) : Json :=
+  match (Nix.Generated.AttrOrder.all.find? (·.1 == name)).map (·.2), (jArr flags).toList with
+  | some st, [n, t, nm, sn, tx, ts, ht] =>
+    let a : Arg := ⟨jBool n, jBool t, jBool nm, jBool sn, jBool tx, jBool ts, jBool ht, 7, 5⟩
+    let r := Nix.AttrWrite.runSetter st a ⟨if jBool present then some 3 else none, 1⟩
+    ok (Json.mkObj [
+      ("err", match r.2 with | none => Json.null | some e => Json.str e.toString),
+      ("attr", match r.1.attr with | none => Json.null | some t => Json.str (if t == 3 then "old" else "new")),
+      ("stamped", Json.bool (r.1.stamp != 1))])
+  | _, _ => bad "attr_run"
+
 def step (g : Graph) (j : Json) : Graph × Json :=
   match (jArr j).toList with
+  | [.str "attr_run", .str name, flags, present] => (g, attrRun name flags present)
   | [.str "role_run", .str name, .str kind, .str place, idf, tg, linked, tf] => (g, roleRun name kind place idf tg linked tf)
   | [.str "propcreate_run", flags] => (g, propCreateRun flags)
   | [.str "copy_run", .str name, kind, nm, keep, children] => (g, copyRun name kind nm keep children)
